@@ -40,7 +40,7 @@ from vlib import core, tools
 from vlib.core import Check, Discard, Inconclusive, Violation
 from vlib.elf import Elf, ElfError, ET_REL
 
-CORPUS_VERSION = "c06-v5"
+CORPUS_VERSION = "c06-v6"
 REPLAYS = 20
 NEED = 2
 
@@ -304,9 +304,9 @@ def _build_script(d):
 SECTIONS {
   . = 0x600000;
   .text : { *(.text .text.*) etext_sym = .; }
-  . = ALIGN(0x1000);
+  . = ALIGN(4096);
   .rodata : { *(.rodata .rodata.*) }
-  . = ALIGN(0x1000);
+  . = ALIGN(4096);
   .data : { data_begin = .; *(.data .data.*) data_end = .; }
   .bss : { *(.bss .bss.*) }
 }
